@@ -3,6 +3,7 @@ package main
 import (
 	"fmt"
 	"math/rand"
+	"time"
 
 	"github.com/lindb/lindb/verif/internal/node"
 )
@@ -202,6 +203,53 @@ func (g *gen) pointOf(s *gSeries, fam int64) rowRec {
 	return rowRec{Metric: s.m.name, UID: s.uid, Host: s.host, Extra: s.extra, Fields: s.fld, Family: fam, Slot: g.slot(fam), Shard: s.shard}
 }
 
+// rowsFor makes n rows that the routing sends to the given shard and family: points of existing series of the shard,
+// or new series whose tags hash into it.
+func (g *gen) rowsFor(shard int, fam int64, n int) []rowRec {
+	var rows []rowRec
+	var own []*gSeries
+	for _, s := range g.series {
+		if s.shard == shard {
+			own = append(own, s)
+		}
+	}
+	for i := 0; i < n; i++ {
+		if len(own) > 0 && (i > 0 || g.r.Intn(2) == 0) {
+			rows = append(rows, g.pointOf(own[g.r.Intn(len(own))], fam))
+			continue
+		}
+		m := g.pickMetric(false)
+		for try := 0; try < 64; try++ {
+			g.uidN++
+			probe := rowRec{Metric: m.name, UID: fmt.Sprintf("u%d", g.uidN), Host: g.pickHost(m), Fields: []string{"f"}, Family: fam, Slot: 0}
+			if g.shardOf(&probe) != shard {
+				continue
+			}
+			s := &gSeries{m: m, uid: probe.UID, host: probe.Host, safe: g.safeCycle(), fld: []string{"f"}, shard: shard}
+			g.series = append(g.series, s)
+			own = append(own, s)
+			probe.Slot, probe.Shard, probe.NewSer = g.slot(fam), shard, true
+			rows = append(rows, probe)
+			break
+		}
+	}
+	return rows
+}
+
+// segmentPath is the part of a table file label that names the data family's directory.
+func segmentPath(shard int, fam int64) string {
+	t := time.UnixMilli(fam).UTC()
+	return fmt.Sprintf("/shard/%d/segment/day/%s/%d/", shard, t.Format("20060102"), t.Hour())
+}
+
+// duringDataFlush: an entry for exactly the family being flushed is appended and replicated after its table file was
+// written and before the flush commits and acknowledges.
+func (g *gen) duringDataFlush(shard int, fam int64) injection {
+	// ("create": the first operation on the table file; its close and the manifest commit run under the family lock)
+	return injection{Prefix: "create ", Contains: segmentPath(shard, fam), Nth: 0, Targeted: "data-flush-of-the-family",
+		Actions: []action{{Kind: "append", Rows: g.rowsFor(shard, fam, 1+g.r.Intn(2)), Writers: 1}, {Kind: "replicate", Steps: -1}}}
+}
+
 func (g *gen) fam() int64 { return g.families[g.r.Intn(len(g.families))] }
 
 // appendAction makes 1..maxRows rows of one family.
@@ -337,8 +385,9 @@ func makePlan(r *rand.Rand, idx int, tier string, t0 int64) *plan {
 					inj.Contains = "/index/"
 					cyc.Inject = append(cyc.Inject, inj)
 				}
+				cyc.Inject = append(cyc.Inject, g.duringDataFlush(0, families[0]))
 				if r.Intn(2) == 0 {
-					inj := g.genericInjection(6)
+					inj := g.genericInjection(2)
 					inj.Contains = "/segment/"
 					cyc.Inject = append(cyc.Inject, inj)
 				}
@@ -393,11 +442,12 @@ func makePlan(r *rand.Rand, idx int, tier string, t0 int64) *plan {
 							}
 						}
 						nrace++
-					case fam == families[0] || r.Intn(2) == 0:
-						// rows arrive (and are replicated) while the table file of the data flush is being written
-						inj := g.genericInjection(4)
-						inj.Actions = append(inj.Actions, action{Kind: "replicate", Steps: -1})
-						d.Inject = append(d.Inject, inj)
+					default:
+						d.Inject = append(d.Inject, g.duringDataFlush(s, fam))
+						if r.Intn(2) == 0 {
+							// more rows (any family) while the table file of the data flush is being written
+							d.Inject = append(d.Inject, g.genericInjection(2))
+						}
 					}
 				}
 				add(d)
